@@ -1,6 +1,13 @@
 package main
 
-import "fmt"
+import (
+	"fmt"
+	"go/ast"
+	"go/types"
+	"os"
+	"sort"
+	"strings"
+)
 
 func init() {
 	register(&propCheck{id: "DISC", pkgs: []string{"cue/ast", "cue/ast/astutil", "cue/format", "internal/pretty", "cue/parser",
@@ -18,6 +25,88 @@ func init() {
 				fmt.Println(l)
 			}
 		}
+		if os.Getenv("DISC_COPIES") != "" {
+			discFieldCopies(c)
+		}
 		c.check("disc", "x", 0, true, "")
 	}})
+	register(&propCheck{id: "DISCALL", pkgs: []string{"cmd/cue/cmd"}, run: func(c *Ctx) {
+		discFieldCopies(c)
+		c.check("disc", "x", 0, true, "")
+	}})
+}
+
+// discFieldCopies lists composite literals that copy two or more fields from
+// the same-named fields of one value of the same struct type, with the fields
+// they leave out (discovery aid; armed instances live in the per-property rules).
+func discFieldCopies(c *Ctx) {
+	var paths []string
+	for path := range c.Pkgs {
+		if strings.HasPrefix(path, "cuelang.org/go") {
+			paths = append(paths, path)
+		}
+	}
+	sort.Strings(paths)
+	for _, path := range paths {
+		p := c.Pkgs[path]
+		if len(p.Syntax) == 0 {
+			continue
+		}
+		for _, f := range c.funcs(p) {
+			info := f.Info()
+			ast.Inspect(f.Body, func(x ast.Node) bool {
+				cl, ok := x.(*ast.CompositeLit)
+				if !ok {
+					return true
+				}
+				t := info.TypeOf(cl)
+				if t == nil {
+					return true
+				}
+				named, ok := types.Unalias(t).(*types.Named)
+				if !ok {
+					return true
+				}
+				st, ok := named.Underlying().(*types.Struct)
+				if !ok {
+					return true
+				}
+				set := map[string]bool{}
+				srcs := map[string]int{}
+				for _, e := range cl.Elts {
+					kv, ok := e.(*ast.KeyValueExpr)
+					if !ok {
+						continue
+					}
+					name := exprString(kv.Key)
+					set[name] = true
+					if sel, ok := ast.Unparen(kv.Value).(*ast.SelectorExpr); ok && sel.Sel.Name == name {
+						tv := info.TypeOf(sel.X)
+						if tv == nil {
+							continue
+						}
+						if pt, ok := tv.Underlying().(*types.Pointer); ok {
+							tv = pt.Elem()
+						}
+						if nn, ok := types.Unalias(tv).(*types.Named); ok && nn.Obj() == named.Obj() {
+							srcs[exprString(sel.X)]++
+						}
+					}
+				}
+				for s, cnt := range srcs {
+					if cnt < 2 {
+						continue
+					}
+					var missing []string
+					for i := 0; i < st.NumFields(); i++ {
+						if !set[st.Field(i).Name()] {
+							missing = append(missing, st.Field(i).Name())
+						}
+					}
+					fmt.Printf("COPY %s %s{} from %s copied=%d/%d missing=%v at %s\n", f.Name, named.Obj().Name(), s, cnt, st.NumFields(), missing, c.pos(cl.Pos()))
+				}
+				return true
+			})
+		}
+	}
 }
